@@ -211,7 +211,7 @@ class Parser:
             if isinstance(r, complex) and kind_of(a) != "complex" and kind_of(b) != "complex":
                 c.dom.require(False)   # negative base to a fractional power: outside the real domain
             return r
-        if kind_of(b) != "complex":
+        if c.symbolic and kind_of(b) != "complex":
             # a pole: zero to a negative power (only a constant exponent tells its sign)
             import z3
             eb = z3.simplify(b.re)
